@@ -261,7 +261,8 @@ def exec_case(module, sub: Sub, desc, ctx: Ctx, stats: Stats, known: list[Findin
     if out is not None:
         fid = _classify_known(module, desc, out, known)
         if fid:
-            stats.known[fid] += 1
+            if count:
+                stats.known[fid] += 1
             out = None
     if count:
         for lab in ctx._labels:
